@@ -10,7 +10,7 @@
    [chain_ok_list l]: every event of l is a control event and every number field of a point is a number at the
    next point too (the inputs on which the real code does not raise).  cos(pi x) is the function [cospi]; the
    theorems that need facts about it state them as hypotheses. *)
-From Isobar Require Import Base.Prelude Sched.Interp Sched.InterpProofs.
+From Isobar Require Import Base.Prelude Sched.Interp Sched.InterpProofs Sched.InterpRetime Sched.InterpRetimeProofs.
 From Coq Require Import QArith Qround String Lqa.
 Local Open Scope Z_scope.
 Local Notation length := List.length (only parsing).
@@ -296,3 +296,222 @@ Example C15_whole_ticks_nonvacuous :
   dur_steps 100 (5224175567749775 # 18014398509481984) = 29
   /\ Qfloor ((5224175567749775 # 18014398509481984) * 100) = 28.
 Proof. vm_compute. split; reflexivity. Qed.
+
+(** * The timeline's resolution is re-configured after the track was scheduled  (Sched/InterpRetime.v)
+
+    [timeline.ticks_per_beat = n], [timeline.clock_source = <clock with another resolution>] before the track's first
+    tick, between two segments or in the middle of one.  A history is a list of [RTick] / [RTpb n]; equivalently
+    tick k (k = 0: the track's first tick) is made at the resolution [R k], R ARBITRARY.
+    [plan_tick R pre] is the tick on which the segment that starts at the point after pre is planned: the
+    resolution in force on that tick gives it D = [dur_steps (R (plan_tick R pre)) duration] steps.
+    [point_tick R pre] is the tick of that point: the sum of the D's planned for the points of pre
+    (C15_retime_plan).  [retime R l] is l with every duration replaced by its planned D (in ticks). *)
+
+(** A history of ticks and resolution changes, the resolution carried in the state, is the run in which tick k is
+    made at the resolution in force on the k-th tick of the history. *)
+Theorem C15_retime_history : forall cospi mode maxc ops tpb st,
+  rt_trace cospi mode maxc (tpb, st) ops = runv cospi (rt_res tpb ops) mode maxc 0 (rt_ticks ops) st.
+Proof. intros. apply rt_trace_runv. Qed.
+Print Assumptions C15_retime_history.
+
+(** Without a change it is the run of the fixed-resolution model. *)
+Theorem C15_retime_const : forall cospi tpb mode maxc n t st,
+  runv cospi (fun _ => tpb) mode maxc t n st = run cospi tpb mode maxc n st.
+Proof. intros. apply runv_const. Qed.
+Print Assumptions C15_retime_const.
+
+(** For EVERY assignment of resolutions to ticks and every stream: the trace is the closed form of the stream whose
+    durations are the planned step counts (at one tick per beat), followed by silence. *)
+Theorem C15_retime_trace : forall cospi R mode maxc events n,
+  all_num events ->
+  runv cospi R mode maxc 0 n (init events) = pad n (spec cospi 1 mode (retime R (eff maxc 0 events))).
+Proof. intros. apply runv_spec. assumption. Qed.
+Print Assumptions C15_retime_trace.
+
+(** The plan: the first segment is planned on the track's first tick, every later one on the tick after its
+    starting point was sent, with the resolution in force THEN; each point lies that many ticks after the one
+    before; a point whose duration rounds to 0 ticks at that resolution takes no tick. *)
+Theorem C15_retime_plan : forall R pre e,
+  plan_tick R pre = (if (point_tick R pre =? 0)%nat then 0 else S (point_tick R pre))%nat
+  /\ point_tick R [] = 0%nat
+  /\ point_tick R (pre ++ [e]) = (point_tick R pre + Z.to_nat (dur_steps (R (plan_tick R pre)) (e_dur e)))%nat
+  /\ retime R (pre ++ [e]) = retime R pre ++ [set_dur e (dur_steps (R (plan_tick R pre)) (e_dur e))].
+Proof.
+  intros. split; [apply plan_tick_point|]. split; [reflexivity|]. split; [apply point_tick_snoc|apply retime_snoc].
+Qed.
+Print Assumptions C15_retime_plan.
+
+(** Exactly one control call on every tick from the first point's tick to the last point's tick, none after. *)
+Theorem C15_retime_one_per_tick : forall cospi R mode maxc events,
+  all_num events ->
+  chain_ok_list (eff maxc 0 events) = true ->
+  Forall (fun e => has_keys e = true) (eff maxc 0 events) ->
+  let S := point_tick R (removelast (eff maxc 0 events)) in
+  exists L, (forall n, runv cospi R mode maxc 0 n (init events) = pad n L)
+         /\ length L = (if (S =? 0)%nat then 0 else 1 + S)%nat
+         /\ Forall is_call L.
+Proof. intros. apply runv_one_per_tick; assumption. Qed.
+Print Assumptions C15_retime_one_per_tick.
+
+(** j ticks into a segment planned with D steps the value is v_i + (v_next - v_i) * f(j / D), D computed from the
+    resolution in force on the segment's planning tick - whatever the resolution does before or afterwards. *)
+Theorem C15_retime_curve : forall cospi R mode maxc events pre cur nxt post a b (j : nat),
+  all_num events ->
+  eff maxc 0 events = pre ++ cur :: nxt :: post ->
+  chain_ok_list (pre ++ cur :: nxt :: post) = true ->
+  has_keys cur = true ->
+  lookup "value" (e_fields cur) = Some (VNum a) -> lookup "value" (e_fields nxt) = Some (VNum b) ->
+  let D := dur_steps (R (plan_tick R pre)) (e_dur cur) in
+  (1 <= j)%nat -> Z.of_nat j <= D ->
+  forall n, (point_tick R pre + j < n)%nat ->
+  exists c v h,
+    nth (point_tick R pre + j) (runv cospi R mode maxc 0 n (init events)) ONone = OCall c (VNum v) h
+    /\ (v == a + (b - a) * ease cospi mode (Z.of_nat j # Z.to_pos D))%Q.
+Proof.
+  intros cospi R mode maxc events pre cur nxt post a b j Hn He Hok Hk Ha Hb D Hj1 HjD n Hlt.
+  destruct j as [|j0]; [lia|].
+  replace (point_tick R pre + S j0)%nat with (1 + point_tick R pre + j0)%nat in * by lia.
+  rewrite (runv_segment cospi R mode maxc events pre cur nxt post j0 n Hn He Hok) by (fold D; lia).
+  fold D.
+  destruct (emit_value (fun a b => step_value cospi mode a b D j0) cur nxt a b (chain_ok_mid _ _ _ _ Hok) Hk Ha Hb)
+    as [c [h [E _]]].
+  exists c, (step_value cospi mode a b D j0), h. split; [exact E|].
+  replace (Z.of_nat (S j0)) with (Z.of_nat j0 + 1) by lia.
+  destruct mode; unfold ease.
+  - apply step_value_linear. lia.
+  - apply step_value_cosine.
+Qed.
+Print Assumptions C15_retime_curve.
+
+(** Each control point that ends a segment of positive planned length is hit exactly on its own tick. *)
+Theorem C15_retime_hits_points : forall cospi R mode maxc events pre cur nxt post a b,
+  (forall x, (x == 1)%Q -> (cospi x == -1)%Q) ->
+  all_num events ->
+  eff maxc 0 events = pre ++ cur :: nxt :: post ->
+  chain_ok_list (pre ++ cur :: nxt :: post) = true ->
+  has_keys cur = true ->
+  lookup "value" (e_fields cur) = Some (VNum a) -> lookup "value" (e_fields nxt) = Some (VNum b) ->
+  1 <= dur_steps (R (plan_tick R pre)) (e_dur cur) ->
+  forall n, (point_tick R (pre ++ [cur]) < n)%nat ->
+  exists c v h,
+    nth (point_tick R (pre ++ [cur])) (runv cospi R mode maxc 0 n (init events)) ONone = OCall c (VNum v) h
+    /\ (v == b)%Q.
+Proof.
+  intros cospi R mode maxc events pre cur nxt post a b Hcos Hn He Hok Hk Ha Hb HD n Hlt.
+  rewrite point_tick_snoc in *. set (D := dur_steps (R (plan_tick R pre)) (e_dur cur)) in *.
+  destruct (C15_retime_curve cospi R mode maxc events pre cur nxt post a b (Z.to_nat D)
+              Hn He Hok Hk Ha Hb ltac:(lia) ltac:(fold D; lia) n Hlt) as [c [v [h [E1 E2]]]].
+  exists c, v, h. split; [exact E1|]. rewrite E2. fold D.
+  assert (E1' : (Z.of_nat (Z.to_nat D) # Z.to_pos D == 1)%Q).
+  { unfold Qeq. simpl. rewrite Z2Pos.id by lia. lia. }
+  destruct mode; unfold ease.
+  - rewrite E1'. ring.
+  - rewrite (Hcos _ E1'). field.
+Qed.
+Print Assumptions C15_retime_hits_points.
+
+(** The first message, on the track's first tick, is the value of the first point of positive planned length. *)
+Theorem C15_retime_first_point : forall cospi R mode maxc events pre cur nxt post a b,
+  all_num events ->
+  eff maxc 0 events = pre ++ cur :: nxt :: post ->
+  chain_ok_list (pre ++ cur :: nxt :: post) = true ->
+  has_keys cur = true ->
+  lookup "value" (e_fields cur) = Some (VNum a) -> lookup "value" (e_fields nxt) = Some (VNum b) ->
+  point_tick R pre = 0%nat -> 1 <= dur_steps (R 0%nat) (e_dur cur) ->
+  forall n, (0 < n)%nat ->
+  exists c h, nth 0 (runv cospi R mode maxc 0 n (init events)) ONone = OCall c (VNum a) h.
+Proof.
+  intros cospi R mode maxc events pre cur nxt post a b Hn He Hok Hk Ha Hb Hz HD n Hlt.
+  rewrite (runv_first cospi R mode maxc events pre cur nxt post n Hn He Hok Hz HD Hlt).
+  destruct (emit_value raw_val cur nxt a b (chain_ok_mid _ _ _ _ Hok) Hk Ha Hb) as [c [h [E _]]].
+  exists c, h. exact E.
+Qed.
+Print Assumptions C15_retime_first_point.
+
+(** Values never leave the interval spanned by the segment's end points. *)
+Theorem C15_retime_hull : forall cospi R mode maxc events pre cur nxt post a b (j : nat),
+  (forall x, (-1 <= cospi x)%Q /\ (cospi x <= 1)%Q) ->
+  all_num events ->
+  eff maxc 0 events = pre ++ cur :: nxt :: post ->
+  chain_ok_list (pre ++ cur :: nxt :: post) = true ->
+  has_keys cur = true ->
+  lookup "value" (e_fields cur) = Some (VNum a) -> lookup "value" (e_fields nxt) = Some (VNum b) ->
+  (1 <= j)%nat -> Z.of_nat j <= dur_steps (R (plan_tick R pre)) (e_dur cur) ->
+  forall n, (point_tick R pre + j < n)%nat ->
+  exists c v h,
+    nth (point_tick R pre + j) (runv cospi R mode maxc 0 n (init events)) ONone = OCall c (VNum v) h
+    /\ ((a <= b -> a <= v /\ v <= b) /\ (b <= a -> b <= v /\ v <= a))%Q.
+Proof.
+  intros cospi R mode maxc events pre cur nxt post a b j Hcos Hn He Hok Hk Ha Hb Hj1 HjD n Hlt.
+  destruct (C15_retime_curve cospi R mode maxc events pre cur nxt post a b j Hn He Hok Hk Ha Hb Hj1 HjD n Hlt)
+    as [c [v [h [E1 E2]]]].
+  exists c, v, h. split; [exact E1|].
+  set (D := dur_steps (R (plan_tick R pre)) (e_dur cur)) in *.
+  assert (Hx : (0 <= Z.of_nat j # Z.to_pos D)%Q /\ (Z.of_nat j # Z.to_pos D <= 1)%Q).
+  { unfold Qle. simpl. rewrite Z2Pos.id by lia. split; lia. }
+  assert (Ht : (0 <= ease cospi mode (Z.of_nat j # Z.to_pos D))%Q /\ (ease cospi mode (Z.of_nat j # Z.to_pos D) <= 1)%Q).
+  { destruct mode; unfold ease; [exact Hx|].
+    destruct (Hcos (Z.of_nat j # Z.to_pos D)) as [C1 C2].
+    set (cc := cospi (Z.of_nat j # Z.to_pos D)) in *. clearbody cc.
+    setoid_replace ((1 - cc) / 2)%Q with ((1 - cc) * (1 # 2))%Q by field. split; lra. }
+  destruct Ht as [T0 T1]. destruct (lerp_between a b _ T0 T1) as [B1 B2].
+  split; intros Hab; rewrite E2; [apply B1|apply B2]; exact Hab.
+Qed.
+Print Assumptions C15_retime_hull.
+
+(** A segment under way keeps its plan: two assignments of resolutions that agree on every planning tick give the
+    same trace - what the resolution does on any other tick (in the middle of a segment) is never looked at. *)
+Theorem C15_retime_plan_kept : forall cospi R R' mode maxc events,
+  all_num events ->
+  (forall pre e post, eff maxc 0 events = pre ++ e :: post -> R (plan_tick R pre) = R' (plan_tick R pre)) ->
+  forall n, runv cospi R' mode maxc 0 n (init events) = runv cospi R mode maxc 0 n (init events).
+Proof. intros. apply runv_plan_kept; assumption. Qed.
+Print Assumptions C15_retime_plan_kept.
+
+(** Rejection under a changing resolution: the messages of the valid prefix, InvalidEventException on the tick on
+    which the offending segment is planned, nothing after. *)
+Theorem C15_retime_reject : forall cospi R mode maxc events pre cur nxt post,
+  all_num events ->
+  eff maxc 0 events = pre ++ cur :: nxt :: post ->
+  chain_ok_list (pre ++ [cur]) = true ->
+  1 <= dur_steps (R (plan_tick R pre)) (e_dur cur) ->
+  e_ctl cur && e_ctl nxt = false ->
+  let A := spec cospi 1 mode (retime R (pre ++ [cur])) in
+  (forall n, runv cospi R mode maxc 0 n (init events) = pad n (A ++ [OInvalid]))
+  /\ length A = (if (point_tick R pre =? 0)%nat then 0 else 1 + point_tick R pre)%nat.
+Proof.
+  intros cospi R mode maxc events pre cur nxt post Hn He Hok HD Hctl.
+  exact (runv_reject cospi R mode maxc events pre cur nxt post Hn He Hok HD Hctl).
+Qed.
+Print Assumptions C15_retime_reject.
+
+(** On the timeline the track's tick 0 is the start tick t0; before it nothing is sent, from it on the track runs
+    at the resolutions of the ticks t0, t0 + 1, ... *)
+Theorem C15_retime_timeline : forall cospi n R mode maxc s q d events t0,
+  all_num events ->
+  start_tick_v (S n) R s q d = Some t0 ->
+  let m := Nat.min n t0 in
+  timeline_runv cospi n R mode maxc s q d events =
+  repeat ONone m ++ pad (n - m) (spec cospi 1 mode (retime (fun k => R (m + k)%nat) (eff maxc 0 events))).
+Proof.
+  intros. rewrite (timeline_runv_started _ _ _ _ _ _ _ _ _ _ H0). f_equal. apply runv_spec. assumption.
+Qed.
+Print Assumptions C15_retime_timeline.
+
+(** Non-vacuity: 480 ticks per beat when the track is scheduled, 24 from its first tick on, 12 from tick 30 on (in
+    the middle of the second segment), 48 from tick 37 on (the tick on which the third segment is planned). *)
+Example C15_retime_nonvacuous :
+  let evs := [pt 10 1; pt 70 (1 # 2); pt 40 (1 # 4); pt 41 1] in
+  let R := res_of 480 [(0, 24); (30, 12); (37, 48)] in
+  let ops := [RTpb 24] ++ repeat RTick 30 ++ [RTpb 12] ++ repeat RTick 7 ++ [RTpb 48] ++ repeat RTick 20 in
+  all_num evs /\ chain_ok_list evs = true /\ forallb has_keys evs = true
+  /\ map (fun e => Qfloor (e_dur e)) (retime R evs) = [24; 12; 12; 48]
+  /\ map (fun k => plan_tick R (firstn k evs)) [0; 1; 2]%nat = [0; 25; 37]%nat
+  /\ map (fun k => point_tick R (firstn k evs)) [0; 1; 2; 3]%nat = [0; 24; 36; 48]%nat
+  /\ rt_trace cos0 Linear None (480, init evs) ops = runv cos0 R Linear None 0 57 (init evs)
+  /\ map (fun k => match nth k (runv cos0 R Linear None 0 57 (init evs)) ONone with
+                    | OCall (VNum c) (VNum v) (VOpq 1) => Some (Qred c, Qred v) | _ => None end) [0; 12; 24; 30; 36; 48; 49]%nat
+     = [Some (7, 10); Some (7, 40); Some (7, 70); Some (7, 55); Some (7, 40); Some (7, 41); None]%Q.
+Proof.
+  cbv zeta. split; [repeat constructor|]. vm_compute. repeat split.
+Qed.
